@@ -27,12 +27,27 @@ ASSUMPTIONS = [
 ALL_AXES = model.TIME_AXES + model.LEADTIME_AXES + model.LOCATION_AXES + ["no"]
 
 
+@st.composite
+def time_opts(draw, spec):
+    """Optionally a -d / -tod / -t selection that keeps a strict, non-empty subset of the initialisation times."""
+    times = sorted(spec["times"])
+    kind = draw(st.sampled_from(["none", "none", "dates", "tods", "times"]))
+    if kind == "none" or len(times) < 2:
+        return {}
+    keep = [t for t in times if draw(st.booleans())] or times[:1]
+    if kind == "dates":
+        return {"dates": sorted(set(model.unix_to_date(t) for t in keep))}
+    if kind == "tods":
+        return {"tods": sorted(set((t % 86400) // 3600 for t in keep))}
+    return {"times": [float(t) for t in keep]}
+
+
 def strategy(tier):
     @st.composite
     def s(draw):
         spec = draw(gen.dataset(max_inputs=2, clim=False, flavor="det", core_max=4, extra_max=1, allow_drop=False,
                                 allow_all_missing=False))
-        return {"spec": spec}
+        return {"spec": spec, "opts": draw(time_opts(spec))}
     return s()
 
 
@@ -40,10 +55,13 @@ def check_api(case, ctx):
     import numpy as np
     from .. import mat
     spec = case["spec"]
-    ds = model.DS(spec)
+    opts = case.get("opts") or {}
+    ds = model.DS(spec, opts)
     if ds.empty:
         return
-    data = mat.make_data(spec)
+    data = mat.make_data(spec, opts)
+    if opts and ds.times != model.DS(spec).times:
+        ctx.label("time-subset/" + sorted(opts)[0])
     n_in = len(spec["inputs"])
     F = [("obs",), ("fcst",)]
     pooled = [ds.cases(F, i, "no", 0) for i in range(n_in)]
@@ -52,7 +70,7 @@ def check_api(case, ctx):
         sl = ds.slices(axis)
         got_vals = [float(v) for v in data.get_axis_values(vax)]
         exp_vals = [float(b) for b, _ in sl]
-        sub = {"spec": spec, "axis": axis}
+        sub = {"spec": spec, "axis": axis, "opts": opts}
         ctx.evals += 1
         # non-triviality
         if axis in model.TIME_AXES:
@@ -91,7 +109,7 @@ def check_api(case, ctx):
             ctx.fail("C11/bucket/" + axis, sub, "axis values %r, model %r (times %r, leadtimes %r)" % (got_vals[:8], exp_vals[:8], ds.times, ds.leads))
             continue
     # cases per slice, for every axis (both directions)
-    dscheck.check_slices(ctx, ID, spec, ds, data, [F, [("fcst",)]], ALL_AXES)
+    dscheck.check_slices(ctx, ID, spec, ds, data, [F, [("fcst",)]], ALL_AXES if not case.get("axis") else [case["axis"]], extra={"opts": opts})
     # partition laws on what verif returns
     for axis in ALL_AXES:
         vax = mat.vaxis(axis)
@@ -108,7 +126,7 @@ def check_api(case, ctx):
                 wsum_bias += math.fsum(b - a for a, b in t)
             ctx.evals += 1
             if tot != len(pooled[i]):
-                ctx.fail("C11/partition/count/" + axis, {"spec": spec, "axis": axis, "input": i},
+                ctx.fail("C11/partition/count/" + axis, {"spec": spec, "axis": axis, "input": i, "opts": opts},
                          "slice counts add up to %d, pooled count is %d" % (tot, len(pooled[i])))
             elif tot:
                 pm = math.fsum(abs(a - b) for a, b in pooled[i])
